@@ -149,6 +149,48 @@ pub fn c07(tier: &str, seed: u64) {
     }
     case(true);
   }
+  // the limb-product lattice as encodings, and Montgomery-lattice operands with a second operation
+  for b in crate::s_fp::limb_lattice() {
+    let v = BigUint::from_bytes_le(&b);
+    match fp_of(&b) {
+      Some(f) => {
+        if v >= p || repr(&f) != b.to_vec() {
+          fail("encoding", &[("bytes", hex(&b)), ("why", "accepted non-canonical or re-encoded differently (limb lattice)".into())]);
+        }
+      }
+      None => {
+        if v < p {
+          fail("encoding", &[("bytes", hex(&b)), ("why", "canonical encoding rejected (limb lattice)".into())]);
+        }
+      }
+    }
+    case(true);
+  }
+  {
+    let ml: Vec<Fp> = crate::s_fp::mont_lattice().iter().map(|b| fp_of(b).unwrap()).collect();
+    let every = if quick(tier) { 9 } else { 1 };
+    let mut cnt = 0usize;
+    for x in &ml {
+      for y in &ml {
+        cnt += 1;
+        if cnt % every != 0 {
+          continue;
+        }
+        let (a, b) = (big(x), big(y));
+        let s = *x + *y;
+        let sb = (&a + &b) % &p;
+        chk("neg-after-add", &a, &b, &(-s), (&p - &sb) % &p);
+        chk("sub-from-zero-after-add", &a, &b, &(Fp::ZERO - s), (&p - &sb) % &p);
+        let d = x.double();
+        chk("neg-after-double", &a, &a, &(-d), (&p - (&a + &a) % &p) % &p);
+        let m = *x * *y;
+        chk("neg-after-mul", &a, &b, &(-m), (&p - (&a * &b) % &p) % &p);
+        chk("add-after-mul", &a, &b, &(m + *y), ((&a * &b) + &b) % &p);
+        case(true);
+      }
+    }
+    stat_n("oracle.C07.mont_lattice_points", ml.len() as u64);
+  }
   // published constants
   let gch = |name: &str, ok: bool| {
     if !ok {
